@@ -18,12 +18,6 @@ FUEL = 300
 HORIZON = 600
 CORE_VARS = ["x", "y", "z", "v", "i", "j", "r"] + ["w%d" % i for i in range(1, 13)]
 
-# the main thread sits in a blocking builtin (read / wait / select) when the context is cancelled, and that
-# builtin is the last thing the program does
-BLOCKED_LAST = ("read_blocked", "while_read_blocked", "read_in_func", "select_blocked", "bg_loop_wait",
-                "bg_two_loops_wait", "bg_loop_wait_pid", "bg_read_wait", "procsubst_read_loop", "pipe_reader_blocked",
-                "pipe_writer_loop", "herestring_loop", "heredoc_loop")
-
 HEADER = """From Verif Require Import Base.Str Interp.Core Interp.Flags.
 From Coq Require Import String.
 Open Scope string_scope.
@@ -147,7 +141,9 @@ def search(ctx, binp, n):
         if g["latency_us"] > bound_us:
             ctx.fail("latency_within_kill_timeout_plus_margin", inp, None, {"latency_us": g["latency_us"]})
         if g.get("status", 0) == 0 and not g.get("err"):
-            klass = "blocked_last_statement_returns_nil" if base in BLOCKED_LAST else None
+            # narrow class, decided on the syntax tree by the harness (blockedLast): the last command of the
+            # main thread is read/wait/select or a loop whose condition is such a read
+            klass = "blocked_last_statement_returns_nil" if r.get("blocked_last") else None
             ctx.fail("returns_an_error", inp, klass, {"status": g.get("status"), "err": g.get("err")})
     ctx.extra["worst_latency_us"] = worst
     ctx.extra["kinds"] = kinds
